@@ -1,6 +1,7 @@
 package sym
 
 import (
+	"encoding/base64"
 	"go/types"
 	"strconv"
 	"strings"
@@ -213,6 +214,46 @@ func registerJSONStubs(e *Engine) {
 		ret(nil)
 	}
 	e.intr[jp+"encodeBase64"] = func(st *State, fn *ssa.Function, args []Value, ret func(Value)) {
+		s := args[0].(Slice)
+		n := st.concInt(s.Len, "base64 length")
+		var bs []*T
+		if n > 0 {
+			bs = st.readBytes(s.P, n)
+		}
+		idx := st.addGhost(ghostTok{kind: "b64", bytes: bs})
+		ret(st.strConst("b" + strconv.Itoa(idx)))
+	}
+	// base64x decoder (assembly on amd64): resolves a placeholder made by vrt.B64Text to the bytes it
+	// names, decodes concrete standard base64 text, anything else is a decoding error
+	b64dec := func(st *State, fn *ssa.Function, args []Value, ret func(Value)) {
+		bt := types.NewSlice(types.Typ[types.Uint8])
+		errT := fn.Signature.Results().At(1).Type()
+		txt, ok := st.concreteBytes(args[1])
+		if g := st.ghostByText(txt, "b"); ok && g != nil && g.kind == "b64" {
+			ret(Tuple{st.bytesToSlice(g.bytes, "base64 decoded"), e.zero(errT)})
+			return
+		}
+		if ok {
+			if raw, err := base64.StdEncoding.DecodeString(txt); err == nil {
+				bs := make([]*T, len(raw))
+				for i, b := range raw {
+					bs[i] = c.Const(uint64(b), 8)
+				}
+				ret(Tuple{st.bytesToSlice(bs, "base64 decoded"), e.zero(errT)})
+				return
+			}
+		}
+		ep := e.prog.ImportedPackage("errors")
+		if ep == nil {
+			st.unsupported("errors package not loaded")
+		}
+		st.callFunc(Func{Fn: ep.Func("New")}, []Value{st.strConst("base64: illegal input")}, func(s *State, v Value) {
+			ret(Tuple{e.zero(bt), v})
+		})
+	}
+	e.intr["(*github.com/cloudwego/base64x.Encoding).DecodeString"] = b64dec
+	e.intr["(github.com/cloudwego/base64x.Encoding).DecodeString"] = b64dec
+	e.intr[vrtPath+".B64Text"] = func(st *State, fn *ssa.Function, args []Value, ret func(Value)) {
 		s := args[0].(Slice)
 		n := st.concInt(s.Len, "base64 length")
 		var bs []*T
